@@ -2,6 +2,7 @@
 (B1) replay of TLC-generated models and (B2) trace validation of recorded executions."""
 import copy
 import json
+import shutil
 import os
 
 from common import *
@@ -228,6 +229,13 @@ def run_session_check(prop, tier, replay=None):
     else:
         nr, nb = (60, 60) if quick else (1500, 1500)
         extra = ["--reqs", edits_file] if prop == "C14" else []
+        if prop == "C14":
+            # geometric models (buildings with windows that see the sun, shades, set-back windows, elements without position,
+            # brise-soleils of equal slats): the obstruction computation is part of the indicators and must terminate on them
+            geo = os.path.join(wd, "geo")
+            shutil.rmtree(geo, ignore_errors=True)
+            vh(["shading", "--generated", "27" if quick else "360", "--dump-only", geo, "--out", os.path.join(wd, "unused.ndjson")], timeout=600)
+            extra += ["--models-dir", geo]
         stats = vh(["session", "--corpus", "--cases", cases_file, "--random", str(nr), "--broken", str(nb),
                     "--size", "4" if quick else "6", "--out", trace] + extra, timeout=7200)
     events = read_ndjson(trace)
